@@ -5,7 +5,9 @@ SPEC = {
         "C16: Panic in the model stands for a Rust panic (overflow check, slice index) and, as stand-ins justified only by the correspondence run, for unbounded recursion (out of fuel) and for an allocation not bounded by the input (alloc_ok)",
     ],
     "assumptions": [
-        "the theorems cover the modelled skeleton only: label arithmetic and id counter, stack-map offset accumulation, the first pass over the bytecode (cursor slice, operand skipping, branch targets, switch counts and entries), bootstrap-argument resolution, element-value / Enigma CLASS nesting, read_u8_vec, `&line[idents..]`, descriptor parsing; everything else of the parsers (attribute dispatch, pool lookups, tree building, the class writer) is covered by the sandboxed search only",
+        "the theorems cover the modelled skeleton only: label arithmetic and id counter, stack-map offset accumulation, the first pass over the bytecode (cursor slice, operand skipping, branch targets, switch counts and entries), bootstrap-argument resolution with its per-instruction budget, element-value / Enigma CLASS nesting, read_u8_vec, `&line[idents..]`, descriptor parsing, the writer's u8 argument size (get_arguments_size); everything else of the parsers (attribute dispatch, pool lookups, tree building, the rest of the class writer) is covered by the sandboxed search only",
+        "the bootstrap budget model charges one unit per get_loadable_nested call with nesting > 0 and creates ONE budget per instruction (as_invoke_dynamic: before the loop over the arguments; get_loadable: per ldc); that the code really does so is tied by the correspondence cases CBootN (accept/refuse and the exact number of expanded arguments found in the accepted tree, sums 65535/65536/65537 over 1..255 top-level arguments) and by the harness oracle that counts the Loadables of every instruction of every accepted class (> 65536 is a violation)",
+        "tiny_v2::unescape iterates `chars()` (no byte index is computed), so it is total by construction and modelled on code points (unescape_cp; correspondence CUnesc on every string of length <= 3 over {backslash, n, e-acute, euro, U+10400, c} and the backslash-before-multi-byte cells). An implementation that slices the String at byte offsets would have to slice at char boundaries only; no theorem covers that — it is searched: backslash before 2-, 3-, 4-byte characters and combining marks, at the end of the line, doubled, before TAB, multi-byte characters next to every structural character, in every comment position of tiny v2 / tiny diff / Enigma and every field of nests",
         "text lines are `String`s (BufRead::lines yields valid UTF-8 or an error): utf8_valid is the model of that guarantee",
         "memory and stack are runtime phenomena: the limits (1 GiB address space, 8 MiB stack, heap <= 32 MiB + 512 x input size) are the operational meaning of 'does not overflow the stack / allocate memory unrelated to the input size'",
     ],
@@ -13,7 +15,7 @@ SPEC = {
         "no_panic_read_class : forall bytes, read_class_out bytes <> Panic  (whole class reader; only the skeleton above is modelled)",
         "writer_total : forall bytes c, read_class bytes = Ok c -> write_class_out c <> Panic  (class writer not modelled; searched by the harness: every accepted class is written and re-read)",
         "no_panic_tiny_v2 / tiny_diff / enigma / nests as whole parsers (only their one partial operation, the line slice, and the CLASS recursion are modelled)",
-        "bootstrap_work_bounded : the number of resolve calls for one instruction is at most max_expanded + 1 (the budget is modelled and threaded, the bound is not proved)",
+        "writer_arguments_size_is_the_only_u8 : get_arguments_size is modelled and proved overflow-free; other narrowing conversions of the writer (e.g. counts `as u16`) are not modelled",
     ],
     "harness_timeout": 3000,
 }
